@@ -29,6 +29,10 @@ class Inconclusive(Exception):
     pass
 
 
+class Crashed(Exception):
+    """the driver process hosting the real stack died from a failure raised in the code under test (already recorded as a violation)"""
+
+
 class Ctx:
     def __init__(self, prop, tier, seed):
         self.prop = prop
@@ -209,7 +213,9 @@ class Ctx:
             raise Inconclusive('go build of driver %s failed:\n%s' % (name, tail(p.stdout, 60)))
         return out
 
-    def run_driver(self, binpath, args, timeout=900, stdin=None, env=None, ok_codes=(0,)):
+    def run_driver(self, binpath, args, timeout=900, stdin=None, env=None, ok_codes=(0,), crash_verdict=None):
+        """a crash of the driver process that classify_crash attributes to the code under test is recorded as a violation
+        (signature stub crash_verdict, default {'check': <property>}) and raised as Crashed; any other abnormal exit is Inconclusive"""
         e = self.goenv()
         if env:
             e.update(env)
@@ -220,6 +226,15 @@ class Ctx:
         except subprocess.TimeoutExpired:
             raise Inconclusive('driver %s timed out after %ss' % (os.path.basename(binpath), timeout))
         if p.returncode not in ok_codes:
+            crash_verdict = crash_verdict or {'check': self.prop}
+            cr = classify_crash(p.stderr)
+            if cr and cr['origin'] == 'code_under_test':
+                # the driver hosts the real stack in-process: an unrecovered panic / fatal error raised from the project's own
+                # frames (no harness frame between the failure and them) has taken the whole process down
+                self.violation(dict(crash_verdict, kind='process_died', frame=cr['frame'].rsplit('/', 1)[-1]),
+                               'the process hosting the proxy died: %s, raised from %s (stack: %s)' % (cr['message'], cr['frame'], ' <- '.join(cr['stack'][:8])),
+                               {'stderr_tail': tail(p.stderr, 80), 'args': list(args)})
+                raise Crashed(cr['message'])
             raise Inconclusive('driver %s exited %d:\n%s\n%s' % (os.path.basename(binpath), p.returncode,
                                                                  tail(p.stdout, 20), tail(p.stderr, 60)))
         return p
@@ -322,6 +337,40 @@ def _sig_match(pattern, sig):
         elif sig[k] != v:
             return False
     return True
+
+
+
+
+def classify_crash(stderr):
+    """Go crash output -> {'message', 'frame', 'origin', 'stack'} or None.  origin is 'code_under_test' when, walking the
+    failing goroutine's stack from the top, the first frame outside the Go runtime / standard library / vendored third-party
+    packages belongs to github.com/wi1dcard/fingerproxy; 'harness' when it belongs to the verification harness."""
+    m = re.search(r'^(panic: .*|fatal error: .*)$', stderr, re.M)
+    if not m:
+        return None
+    rest = stderr[m.end():]
+    g = re.search(r'^goroutine \d+[^\n]*\[running[^\n]*\]:\n(.*?)(?:\n\n|\Z)', rest, re.M | re.S)
+    if not g:
+        g = re.search(r'^goroutine \d+[^\n]*:\n(.*?)(?:\n\n|\Z)', rest, re.M | re.S)
+    if not g:
+        return None
+    stack = []
+    for ln in g.group(1).split('\n'):
+        if not ln or ln.startswith('\t') or ln.startswith('created by'):
+            continue
+        fn = re.sub(r'\([^()]*\)\s*$', '', ln.strip())       # drop the argument list
+        if fn.startswith('panic') or fn.startswith('runtime.'):
+            continue
+        stack.append(fn)
+    origin, frame = 'unknown', stack[0] if stack else '?'
+    for f in stack:
+        if f.startswith('github.com/wi1dcard/fingerproxy'):
+            origin, frame = 'code_under_test', f
+            break
+        if f.startswith('verifharness') or f.startswith('main.') or 'zz_vf' in f or '.vf' in f:
+            origin, frame = 'harness', f
+            break
+    return {'message': m.group(1), 'frame': frame, 'origin': origin, 'stack': stack}
 
 
 def load_known():
